@@ -1,0 +1,22 @@
+//go:build verif
+// +build verif
+
+package searcher
+
+// VerifSplitInt64Range exposes splitInt64Range: each element is {startTerm, endTerm}.
+func VerifSplitInt64Range(minBound, maxBound int64, precisionStep uint) [][2][]byte {
+	trs := splitInt64Range(minBound, maxBound, precisionStep)
+	rv := make([][2][]byte, len(trs))
+	for i, tr := range trs {
+		rv[i] = [2][]byte{tr.startTerm, tr.endTerm}
+	}
+	return rv
+}
+
+// VerifEnumerate exposes termRanges.Enumerate(nil) of the split of [minBound, maxBound].
+func VerifEnumerate(minBound, maxBound int64, precisionStep uint) [][]byte {
+	return splitInt64Range(minBound, maxBound, precisionStep).Enumerate(nil)
+}
+
+// VerifIncrementBytes exposes incrementBytes.
+func VerifIncrementBytes(in []byte) []byte { return incrementBytes(in) }
